@@ -59,7 +59,13 @@ RULE = ('toy cases: source chunk lists over a small alphabet, compressed by the 
         'data whose compressed stream is cut into >= 2 chunks or truncated, or a toy case with >= 2 chunks on '
         'each side, or a resub case with a non-empty payload in a subscription after the first; distinct = distinct '
         'case JSON')
-TRUSTED = ['NOT modelled: zlib and zstandard (C libraries). They enter the Coq theorems as Section variables '
+TRUSTED = ['gzip DEcompression is MODELLED (Compress/Inflate.v: RFC 1952 container with CRC-32 / ISIZE check around a full RFC 1951 '
+           'inflate incl. fixed and dynamic Huffman blocks) and compared with the real zlib on every run (streams emitted by the '
+           'real z.compress wrapper, their strict prefixes, bit-flipped / cut / extended variants with zlib verdicts); proved of '
+           'the model: prefix facts (law H3 for every accepted stream), trailer check, stored-encoder round trip, H1-H3 for the '
+           'codec built from it. NOT proved: that the inflate output on Huffman blocks is what zlib means (comparison only); '
+           'zlib compressor; zstandard is not modelled at all',
+           'zlib compression and zstandard (C libraries) enter the wrapper theorems as Section variables '
            'cstep/cflush/dstep/deof/dflush constrained by the named hypotheses H1 (decoder output, raising and '
            'eof depend only on the concatenation fed, on prefixes of encoder output), H2 (decode(encode whole) = '
            'whole, eof reached), H3 (no eof on a strict prefix); H1-H3 are tied to the real libraries only by the '
@@ -648,6 +654,14 @@ def generate(rng, tier):
                 cases.append(c)
     if tier == 'thorough':
         cases += [gen_allcuts(rng, 3) for _ in range(20)]
+    # the Coq model of gzip decompression (Compress/Inflate.v) against the real zlib, on streams the REAL z.compress
+    # wrapper emits (own random stream derived from rng)
+    import random as _random
+    gr = _random.Random(rng.randrange(2 ** 62))
+    for _ in range({'quick': 14, 'thorough': 160, 'search': 2}[tier]):
+        cases.append({'kind': 'gunzip', 'codec': 'gzip', 'seed': gr.randrange(10 ** 9),
+                      'gen': gr.choice(['text', 'rand', 'rep', 'mixed', 'empty', 'one', 'words']),
+                      'size': gr.choice([0, 1, 5, 60, 300, 900, 2500]), 'nchunks': gr.choice([1, 1, 2, 3, 5])})
     if tier != 'search':
         # generated last (the random stream of the families above is unchanged), then spread evenly over the list
         # so that the long Coq terms are spread over the shards, which are evaluated in parallel
@@ -779,7 +793,76 @@ def run_resub(case):
     return {'subs': subs, 'crosstalk': crosstalk}
 
 
+def gunzip_payload(case):
+    import random
+    r = random.Random(case['seed'])
+    n, g = case['size'], case['gen']
+    if g == 'empty':
+        return b''
+    if g == 'one':
+        return bytes([r.randrange(256)])
+    if g == 'rand':
+        return bytes(r.randrange(256) for _ in range(n))
+    if g == 'rep':
+        return (bytes(r.randrange(256) for _ in range(r.choice([1, 3, 7]))) * (n + 1))[:n]
+    if g == 'words':
+        w = [b'alpha', b'beta', b'gamma', b'delta', b' ', b'\n', b'0123456789']
+        return b''.join(r.choice(w) for _ in range(n // 4 + 1))[:n]
+    if g == 'text':
+        return bytes(r.choice(b'abcdefghij klmnop\nqrstuvwxyz,.') for _ in range(n))
+    return bytes((r.randrange(256) if r.random() < 0.3 else 65 + (i % 7)) for i in range(n))
+
+
+def zlib_verdict(stream):
+    """what zlib.decompressobj(wbits=31) makes of a whole stream: (0, payload) complete, nothing unused; (1, ..) valid so
+    far but incomplete; (2, ..) zlib.error; None = complete with unused data (not compared)"""
+    import zlib
+    d = zlib.decompressobj(wbits=31)
+    try:
+        out = d.decompress(stream)
+        out += d.flush()
+    except zlib.error:
+        return 2, b''
+    if d.eof:
+        return (0, out) if not d.unused_data else None
+    return 1, b''
+
+
+def run_gunzip(case):
+    import random
+    comp_op, _ = wrappers('gzip')
+    data = gunzip_payload(case)
+    r = random.Random(case['seed'] + 1)
+    k = case['nchunks']
+    cuts = sorted(r.randrange(len(data) + 1) for _ in range(k - 1))
+    chunks = [data[a:b] for a, b in zip([0] + cuts, cuts + [len(data)])]
+    steps = drive(comp_op(), chunks)
+    stream = payload(steps)
+    end = ending(steps)
+    pre = sorted(set(r.randrange(len(stream)) for _ in range(6))) if stream else []
+    v = zlib_verdict(stream)
+    # mutants of the stream (bit flips, cuts, garbage appended): zlib's verdict on each
+    muts = []
+    for _ in range(6):
+        b = bytearray(stream)
+        kind = r.randrange(3)
+        if kind == 0 and b:
+            i = r.randrange(len(b))
+            b[i] ^= 1 << r.randrange(8)
+        elif kind == 1 and b:
+            del b[r.randrange(len(b)):]
+        else:
+            b += bytes(r.randrange(256) for _ in range(r.choice([1, 4])))
+        mv = zlib_verdict(bytes(b))
+        if mv is not None:
+            muts.append([list(b), mv[0], list(mv[1])])
+    return {'stream': list(stream), 'payload': list(data), 'cuts': pre, 'end': str(end), 'zlib': (v[0] if v else -1),
+            'zlib_payload_ok': bool(v) and v[0] == 0 and v[1] == data, 'mutants': muts}
+
+
 def run_impl(case):
+    if case['kind'] == 'gunzip':
+        return run_gunzip(case)
     comp_op, decomp_op = wrappers(case['codec'])
     if case['kind'] == 'resub':
         return run_resub(case)
@@ -913,6 +996,13 @@ def oracle_resub(case, obs):
 def oracle(case, obs):
     if case['kind'] == 'resub':
         return oracle_resub(case, obs)
+    if case['kind'] == 'gunzip':
+        if 'raised' in obs:
+            return {'sig': 'gzip:raised', 'what': 'wrapper raised %s to the caller' % obs['raised']}
+        if not obs['zlib_payload_ok']:
+            return {'sig': 'gzip:stream-invalid', 'what': 'what z.compress emitted for %d bytes is not a complete gzip file of '
+                    'that payload for zlib itself (verdict %s, wrapper ended %s)' % (len(obs['payload']), obs['zlib'], obs['end'])}
+        return None
     if case['kind'] != 'real':
         return None
     codec = case['codec']
@@ -958,6 +1048,8 @@ def oracle(case, obs):
 def nontrivial(case, obs):
     if 'raised' in obs:
         return False
+    if case['kind'] == 'gunzip':
+        return len(obs['payload']) >= 60
     if case['kind'] == 'toy':
         return len(case['chunks']) >= 2 and len(case['rechunk']) >= 2
     if case['kind'] == 'resub':
@@ -970,6 +1062,19 @@ def nontrivial(case, obs):
 
 
 def describe(cases, obs):
+    keep = [(c, o) for c, o in zip(cases, obs) if c['kind'] != 'gunzip']
+    gz = [(c, o) for c, o in zip(cases, obs) if c['kind'] == 'gunzip' and 'raised' not in o]
+    d = describe_wrappers([c for c, _ in keep], [o for _, o in keep])
+    d['gzip_model_cases'] = {'streams': len(gz), 'max_stream_bytes': max([len(o['stream']) for _, o in gz] or [0]),
+                             'max_payload_bytes': max([len(o['payload']) for _, o in gz] or [0]),
+                             'prefix_cuts': sum(len(o['cuts']) for _, o in gz),
+                             'mutated_streams_by_zlib_verdict': {str(v): sum(1 for _, o in gz for m in o['mutants'] if m[1] == v) for v in (0, 1, 2)},
+                             'first_block_types (BTYPE of the first deflate block)': {
+                                 str(t): sum(1 for _, o in gz if len(o['stream']) > 10 and ((o['stream'][10] >> 1) & 3) == t) for t in (0, 1, 2)}}
+    return d
+
+
+def describe_wrappers(cases, obs):
     d = {'toy': 0, 'real': 0, 'bad': 0, 'resub': 0, 'resub_subscriptions': 0, 'resub_wrapper_x_sharing_x_order': {},
          'resub_fate_of_first_subscription': {}, 'resub_full_subscription_after_a_disposed_one': 0,
          'resub_max_payload': 0, 'modes': {}, 'codecs': {}, 'data_kinds': {}, 'max_data_len': 0,
@@ -1041,7 +1146,7 @@ def describe(cases, obs):
 # ---------------------------------------------------------------------------------------------
 def coq_preamble():
     return ('From Coq Require Import List ZArith NArith Bool.\nImport ListNotations.\n'
-            'From RxVerif Require Import Base.Corr Compress.Wrapper Compress.C16Corr.\n')
+            'From RxVerif Require Import Compress.Inflate.\nFrom RxVerif Require Import Base.Corr Compress.Wrapper Compress.C16Corr.\n')
 
 
 CTYPE = 'c16case'
@@ -1096,6 +1201,11 @@ def the_trace(case, obs):
 def coq_term(case, obs):
     if 'raised' in obs:
         return 'CRaised'
+    if case['kind'] == 'gunzip':
+        zl = lambda l: '[' + '; '.join(str(x) for x in l) + ']%Z' if l else '(@nil Z)'
+        return 'CGunzip %s %s [%s] [%s]' % (
+            zl(obs['stream']), zl(obs['payload']), '; '.join('%d%%nat' % c for c in obs['cuts']),
+            '; '.join('(%s, %d%%N, %s)' % (zl(m[0]), m[1], zl(m[2])) for m in obs['mutants']))
     skip = case['codec'] == 'zstd'
     if case['kind'] == 'toy':
         if obs['csub'] != [[]] or obs['dsub'] != [[]]:
@@ -1110,6 +1220,8 @@ def coq_term(case, obs):
 
 
 def coq_model_expr(case):
+    if case['kind'] == 'gunzip':
+        return 'gunzip (gzip_stored [104; 105]%Z)'
     skip = c_bool(case['codec'] == 'zstd')
     if case['kind'] == 'toy':
         return '(toy_compress %s, toy_decompress %s %s %s)' % (
@@ -1135,7 +1247,13 @@ def neighbours(case, rng):
 
 
 CLAIM = {
-    'text': 'PARTIAL. zlib and zstandard are C libraries and are NOT modelled. Proved in Coq (closed under the global '
+    'text': 'PARTIAL. zstandard and the zlib COMPRESSOR are not modelled; gzip DEcompression is (Inflate.v: full inflate with '
+            'stored / fixed / dynamic Huffman blocks inside the gzip container, CRC-32 and ISIZE checked; three-valued answer Done / '
+            'NeedMore / Bad), compared with the real zlib on every run, and for it are proved: a complete stream stays complete '
+            'under appended bytes, NO strict prefix of a complete stream is complete (it is NeedMore, never Bad) - truncation is '
+            'never mistaken for completion, for every stream the model accepts -, Done implies a matching trailer, the stored-block '
+            'encoder round-trips every byte list, and H1-H3 hold for the codec built from the model (C16_gzip_model_*: round trip '
+            'under any re-chunking and truncation => Error, without premises). Proved in Coq (closed under the global '
             'context): the rxsci wrapper logic of z.py/zstd.py for ANY codec object - every compress() output is '
             'forwarded while its chunk is pushed, flush() is called exactly once at completion and followed by '
             'Completed; decompress emits Completed iff no decoder call raised, the decoder reports eof at completion '
